@@ -27,7 +27,8 @@ impl StateMachine<'_> {
     }
 
     fn _handle_commit_meta_header_line(&mut self) -> std::io::Result<()> {
-        if self.config.commit_style.is_omitted {
+        // In color_only mode the line must still be emitted (one output line per input line).
+        if self.config.commit_style.is_omitted && !self.config.color_only {
             return Ok(());
         }
         let (mut draw_fn, pad, decoration_ansi_term_style) =
